@@ -1015,16 +1015,17 @@ SVectorBase<R>& SVectorBase<R>::operator=(const SSVectorBase<S>& sv)
    assert(sv.isSetup());
    assert(max() >= sv.size());
 
+   int size = sv.size();
    int nnz = 0;
    int idx;
 
    Nonzero<R>* e = m_elem;
 
-   for(int i = 0; i < nnz; ++i)
+   for(int i = 0; i < size; ++i)
    {
       idx = sv.index(i);
 
-      if(sv.value(idx) != 0.0)
+      if(sv.value(i) != 0.0)
       {
          e->idx = idx;
          e->val = sv[idx];
